@@ -431,11 +431,12 @@ Definition compile_in_obj (g : G) (o : nat) (m : model) (vec clr : bool) : G * o
    ImportError when sys.modules[<file>] is the Python module of an uncleared default-backend compilation (D19);
    the routine of the FIRST extension module imported under <file> in this process otherwise (D29) *)
 Definition with_dy (o : obs) (dy : list Qc) : obs := match o with OOk n k s _ => OOk n k s dy | _ => o end.
-(* FOURTH SWITCH: false = PyRates as it is (D29/D19: `from <file> import <file>`); true = with /verif/fixes/fix_D96.diff: f2py builds the
+(* FOURTH SWITCH: true = PyRates as it is now (repair D96, /verif/fixes/fix_D96.diff, /repo commit 8faa606); false = before (D29/D19:
+   `from <file> import <file>`).  The repair: f2py builds the
    extension under a module name that is unique per generated source (<file>_<sha256(source)[:12]>) and the routine is fetched from
    that module: the table of extension modules is in effect keyed by (file name, source), a hit requires the same source, and a
    Python module registered under <file> no longer gets in the way.  harness/c13.py reads this line. *)
-Definition fixed_D29 : bool := false.
+Definition fixed_D29 : bool := true.
 
 Definition has_ext (file : string) (src : code) (t : list (string * code)) : bool :=
   existsb (fun e => String.eqb file (fst e) && code_eqb src (snd e)) t.
